@@ -256,9 +256,74 @@ def sig(doc, depth=0):
     return type(doc).__name__[0]
 
 
+BRACE_TEXTS = ["{größe}, Red", "Label/#, {durée}", "{col٣}", "{x y}", "{ cat }", "{cat}{cat}", "{Ça}", "{ß}", "{-}", "{_}", "{}",
+               "{cat", "cat}", "{{cat}}", "{CAT}", "{val}, {größe}", "({é})", "{cat\u00a0}", "{１}"]
+
+
+def brace_documents():
+    """Texts with braces around every kind of character, at every HED position of the base."""
+    for text in BRACE_TEXTS:
+        yield set_at(BASE, ("other", "HED", "x"), text)
+        yield set_at(BASE, ("cat", "HED", "a"), text)
+        yield set_at(BASE, ("val", "HED"), text if "#" in text else "Label/#, " + text)
+        yield {"only": {"HED": {"a": text}}}
+
+
+HIST_OPS = ["validate", "validate-errors-only", "drop-hed:val", "drop-hed:other", "give-hed:ign", "make-value:other",
+            "ref-to-other:cat", "ref-to-ign:cat", "restore"]
+
+
+def history_check(env, rec, depth):
+    """E2: one Sidecar object is validated, edited in place (same top-level keys) and validated again in every order up to
+    depth: every validation equals that of a fresh Sidecar built from the current document."""
+    def codes(sc, warn=True):
+        return sorted((i["code"], i.get("ec_sidecarColumnName", "")) for i in sc.validate(
+            env.schema, error_handler=None) if warn or i["severity"] == ERR)
+    for hist in (h for d in range(1, depth + 1) for h in itertools.product(HIST_OPS, repeat=d)):
+        if not any(o.startswith("validate") for o in hist[1:]):
+            continue
+        rec.n("evaluations")
+        rec.n("transitions", len(hist))
+        rec.n("distinct_nontrivial")
+        rec.state(("history", tuple(sorted(set(hist)))))
+        try:
+            sc = env.Sidecar(io.StringIO(json.dumps(BASE)))
+            for step, op in enumerate(hist):
+                d = sc.loaded_dict
+                if op.startswith("validate"):
+                    warn = op == "validate"
+                    got = codes(sc, warn)
+                    want = codes(env.Sidecar(io.StringIO(json.dumps(d))), warn)
+                    if got != want:
+                        rec.violation("C08:history:validation-differs-from-fresh-sidecar", history=list(hist), step=step,
+                                      document=json.dumps(d), fresh=want, got=got)
+                        break
+                elif op == "drop-hed:val":
+                    d["val"].pop("HED", None)                 # edits inside the column entry (the entry object stays)
+                elif op == "drop-hed:other":
+                    d["other"] = {"Description": "annotation removed"}
+                elif op == "give-hed:ign":
+                    d["ign"]["HED"] = {"k": "Square"}
+                elif op == "make-value:other":
+                    d["other"] = {"HED": "Description/#"}
+                elif op == "ref-to-other:cat":
+                    d["cat"]["HED"]["b"] = "(Blue, {other})"
+                elif op == "ref-to-ign:cat":
+                    d["cat"]["HED"]["b"] = "(Blue, {ign})"
+                elif op == "restore":
+                    for k, v in copy.deepcopy(BASE).items():
+                        d[k] = v
+            rec.outcome("history")
+        except Exception as e:
+            rec.violation("C08:history:raises:" + type(e).__name__, history=list(hist), error=repr(e)[:200])
+
+
 def worker(rec, shard, nshards, seed, thorough):
     env = Env()
+    if shard == 0:
+        history_check(env, rec, 4 if thorough else 3)
     docs = [("doc", d, None, False) for d in documents()]
+    docs += [("doc", d, None, False) for d in brace_documents()]
     docs += [("replace", d, None, False) for d in replacements()]
     docs += [("fault:" + k, d, codes, False) for k, codes, d in faults()]
     docs += [("valid", d, None, True) for d in valid_sidecars()]
